@@ -367,6 +367,20 @@ def grad_execs(ctx, r, nrep, with_props=True, with_energy_grads=True):
                         if with_energy_grads:
                             cmds.append({"op": "egrad", "obj": 1})       # read-only queries do not disturb each other
                     execs.append((len(cmds) * n * dim + 10, cmds))
+    # long splines with durations on the dyadic grid (the exact dense adjoint stays cheap there): blocked or unrolled loops, tails, indices
+    for rep in range(nrep):
+        for order, nlist in ((3, (16, 33)), (5, (12, 20)), (7, (10, 14))):
+            for n in nlist:
+                for dim in ((1, 2) if ctx.quick() else (1, 2, 4)):
+                    pr = r.problem(order, dim, n, dcls=r.choice(["grid", "real"]), dyadic=True)
+                    cmds = [{"op": "reset"}, gen.build_cmd(1, pr, r.choice(["ctor_durs", "upd_durs"]), 6)]
+                    if with_props:
+                        for kind in ("dense", "sparse", "timeonly"):
+                            g, t = upstream(r, order, n, dim, kind)
+                            cmds.append(prop_cmd(1, g, t, r.choice(["ref", "ret", "dirty"])))
+                    if with_energy_grads:
+                        cmds += [{"op": "egrad", "obj": 1}, {"op": "egrad", "obj": 1, "via": "parts"}, {"op": "epartial", "obj": 1}, {"op": "prop_epartial", "obj": 1}]
+                    execs.append((len(cmds) * n * n * dim, cmds))
     # one object re-built with another segment count (shrinking and growing) between gradient queries: the adjoint workspaces and cached
     # factors of the earlier size must not show through (each result is judged against the exact adjoint of the CURRENT problem)
     for rep in range(nrep):
